@@ -186,7 +186,13 @@ def _arm_result_with_scrut(f, body, bind, scrut, v):
         return ("undecidable", str(ex))
 
 
-def tab_iso(ctx):
+def tab_iso_traps(ctx):
+    """TAB-ISO restricted to what a no-panic property needs: every byte value folds to a push or an error, never to a trap
+    (index out of the table, arithmetic overflow) - the decoded *value* is not this property's business"""
+    return tab_iso(ctx, traps_only=True)
+
+
+def tab_iso(ctx, traps_only=False):
     r = "TAB-ISO"
     f = ctx.facts()
     obs = []
@@ -203,6 +209,9 @@ def tab_iso(ctx):
             else:
                 ok = got == ("push", want)
                 w = "U+%04X" % want
+            if traps_only:
+                ok = bool(got) and got[0] in ("push", "err")
+                w = "any value or an error, but no panic"
             obs.append(Ob(r, "%s:0x%02X" % (name, v), ok, "%s byte 0x%02X decodes to %s; standard table says %s" % (name, v, _fmt(got), w), site=site.get(v)))
     obs += floor(obs, r, 512, "charset rows")
     return obs
